@@ -59,6 +59,17 @@ pub struct ShimCfg {
     pub log: Option<PathBuf>,
 }
 
+/// More (Some(n)) or the default number (None) of model-randomisation attempts after a sat answer,
+/// for solver processes started afterwards (worker processes only, like `apply`).
+pub fn set_model_tries(n: Option<u32>) {
+    unsafe {
+        match n {
+            Some(n) => std::env::set_var("REFSOLVER_TRIES", n.to_string()),
+            None => std::env::remove_var("REFSOLVER_TRIES"),
+        }
+    }
+}
+
 /// Sets the REFSOLVER_* variables for solver processes started afterwards. Only valid in the
 /// single-threaded worker processes (`pvcheck --worker`).
 pub fn apply(cfg: &ShimCfg) {
